@@ -175,13 +175,13 @@ func (g *Gen) subReq(d *Dump) *SubReq {
 	q := &SubReq{Name: g.subName(), Topic: g.liveTopic(d)}
 	if g.chance(0.5) {
 		q.HasExp = true
-		q.TTL = dptr([]time.Duration{10 * time.Minute, time.Hour, 24 * time.Hour, 45 * time.Second, 0}[g.r.Intn(5)])
+		q.TTL = dptr([]time.Duration{10 * time.Minute, time.Hour, 24 * time.Hour, 45 * time.Second, 0, 40 * 24 * time.Hour, 400 * 24 * time.Hour}[g.r.Intn(7)])
 		if g.chance(0.1) {
 			q.TTL = nil
 		}
 	}
 	if g.chance(0.6) {
-		q.MsgTTL = dptr([]time.Duration{20 * time.Second, 90 * time.Second, 10 * time.Minute, time.Hour, 0}[g.r.Intn(5)])
+		q.MsgTTL = dptr([]time.Duration{20 * time.Second, 90 * time.Second, 10 * time.Minute, time.Hour, 0, 10 * 24 * time.Hour, 31 * 24 * time.Hour}[g.r.Intn(7)])
 	}
 	q.Ordered = g.chance(0.4)
 	if g.chance(0.3) {
